@@ -363,7 +363,7 @@ fn replay_session(prop: &str, path: &str, case: &Value) -> i32 {
         } else if line.split_whitespace().next() == Some("go") {
             match eng.wait_for(|l| l.starts_with("bestmove"), WATCHDOG) {
                 Some(i) => {
-                    let text = eng.transcript[i].line.strip_prefix("bestmove").unwrap_or("").trim().to_string();
+                    let text = crate::sess::bestmove_text(&eng.transcript[i].line);
                     if let Some(p) = &cur {
                         let legal = legal_moves(p);
                         if legal.is_empty() {
